@@ -254,11 +254,16 @@ impl Env {
 
     pub fn receiver_rx(&mut self, now: u64, path: usize, sgen: u64, b: &[u8]) -> Vec<(usize, u64, Vec<u8>)> {
         let mut out: Vec<(usize, u64, Vec<u8>)> = Vec::new();
-        if self.recv.mode != "coop" || b.len() < 2 {
+        if (self.recv.mode != "coop" && self.recv.mode != "echo_only") || b.len() < 2 {
             return out;
         }
         let addr: Addr = (path, sgen);
         let ty = u16::from_be_bytes([b[0], b[1]]);
+        // "echo_only": the receiver keeps the links alive (handshake, keepalive echoes) but its SRT
+        // side has stopped: no SRTLA ACKs, no SRT ACKs / NAKs
+        if self.recv.mode == "echo_only" && ty & 0xFF00 != 0x9200 && ty != 0x9000 {
+            return out;
+        }
         let rx = &mut self.recv;
         match ty {
             0x9200 => {
